@@ -5,6 +5,7 @@
 mod cmp;
 mod dictsrc;
 mod gen;
+mod objeq;
 mod props;
 mod refenc;
 mod report;
